@@ -24,6 +24,12 @@ def setup():
     import torch
 
     torch.set_num_threads(1)
+    try:  # tqdm starts a real monitor thread on first use: not wanted in a single-thread simulation
+        import tqdm
+
+        tqdm.tqdm.monitor_interval = 0
+    except Exception:
+        pass
     import quantem.diffractive_imaging.ptychography as pmod
     from quantem.core.datastructures.dataset4dstem import Dataset4dstem
     from quantem.core.utils.utils import electron_wavelength_angstrom
